@@ -345,8 +345,14 @@ resend_event_notifications(struct qb_ipcs_connection *c)
 	}
 
 	if (c->outstanding_notifiers > 0) {
+		/*
+		 * receive_buf only serves as a source of dummy bytes here,
+		 * never send more of them than it holds; the rest goes out
+		 * on the next POLLOUT.
+		 */
 		res = qb_ipc_us_send(&c->setup, c->receive_buf,
-				     c->outstanding_notifiers);
+				     QB_MIN((size_t)c->outstanding_notifiers,
+					    c->request.max_msg_size));
 	}
 	if (res > 0) {
 		c->outstanding_notifiers -= res;
